@@ -28,6 +28,20 @@ def raw_sorted(root, mp):
     return keys == sorted(keys)
 
 
+def _ordered_cli(rng, argv):
+    """the CLI with directory listings as the OS gives them, or sorted by name ascending / descending (a
+    directory whose name is a string prefix of its sibling's is then visited right before / after it)"""
+    from . import gem, drv_update
+    order = rng.choice(['asc', 'desc', None])
+    real = os.scandir
+    if order:
+        os.scandir = lambda p='.', _r=real, _v=(order == 'desc'): drv_update.OrderedScandir(_r, p, _v)
+    try:
+        return gem.run_cli(argv)
+    finally:
+        os.scandir = real
+
+
 def one_repo(args):
     seed, idx, o = args
     from . import gem
@@ -63,7 +77,7 @@ def one_repo(args):
                 with open(os.path.join(root, d, 'Manifest'), 'wb') as f:
                     f.write(fm.manifest_bytes(ents))
         argv.append(root)
-        obs = gem.run_cli(argv)
+        obs = _ordered_cli(rng, argv)
         end = 'ok' if obs['end'] == 'ok' and obs['status'] == 0 else (obs['end'] if obs['end'] != 'ok' else 'fail')
         namer = fm.Namer()
         s1 = fm.project(root, 'Manifest', namer=namer) if os.path.exists(os.path.join(root, 'Manifest')) else \
@@ -105,7 +119,7 @@ def one_repo_update(args):
         roles, files = repogen.build(rng, root, portable=False)
         cprofile, profile = rng.choice([('ebuild', 'ebuild'), ('old-ebuild', 'old-ebuild'), ('ebuild', 'old-ebuild'),
                                         ('ebuild', 'old-ebuild'), ('old-ebuild', 'ebuild')])
-        obs = gem.run_cli(['create', '-p', cprofile, root])
+        obs = _ordered_cli(rng, ['create', '-p', cprofile, root])
         if obs['end'] != 'ok' or obs['status'] != 0:
             return []
         # edits
@@ -136,17 +150,19 @@ def one_repo_update(args):
                     f.write(b'news')
         before_files = set()
         for dp, dn, fn in os.walk(root):
+            dn[:] = [d for d in dn if not d.startswith('.')]
             for f in fn:
                 before_files.add(os.path.relpath(os.path.join(dp, f), root))
         newfiles = []
         for dp, dn, fn in os.walk(root):
+            dn[:] = [d for d in dn if not d.startswith('.')]
             for f in fn:
                 rel = os.path.relpath(os.path.join(dp, f), root)
                 if rel not in files and not f.startswith('Manifest'):
                     newfiles.append(rel)
                     b = os.path.basename(rel)
         opts = {'hashes': ['BLAKE2B', 'SHA512'], 'sub': '', 'sort': None, 'force': False, 'wm': 128, 'fmt': 'gz',
-                'profile': profile}
+                'profile': profile, 'scandir_order': rng.choice(['asc', 'desc', None])}
         namer = fm.Namer()
         recs = drv_update.run_history(root, _L(files), rng, namer, dict(opts, wm=None, fmt=None), {'seed': seed, 'idx': idx, 'repo': True},
                                       cli=True)
@@ -163,6 +179,7 @@ def one_repo_update(args):
             r0 = recs[0]
             dirs = []
             for dp, dn, fn in os.walk(root):
+                dn[:] = [d for d in dn if not d.startswith('.')]
                 rel = os.path.relpath(dp, root)
                 rel = '' if rel == '.' else rel
                 role = roles.get(rel)
